@@ -549,6 +549,7 @@ int main(int argc, char **argv)
         struct tcase c; gen_case(&c, i);
         char cls[96]; snprintf(cls, sizeof cls, "%s:%s:%s", va.prop, vtp_name[c.tp], mode_name[c.mode]);
         vfork_case(i, one_case, NULL, 150, cls);
+        if (vstop_early()) break;
         (void)batch;
     }
     vsummary(true);
